@@ -493,7 +493,12 @@ func (h yieldHook) Fire(e *logrus.Entry) error {
 	if strings.HasPrefix(e.Message, "ticker[") {
 		// a ticker goroutine between taking a tick and posting it: nothing the step's
 		// oracles look at depends on it, so the scheduler does not wait for it — the next
-		// action may be delivered while it is parked
+		// action may be delivered, and served, while it is parked (up to 4 µs: longer than
+		// an event-loop turn that is itself parked here and there)
+		d = int64(2 + 4*((x>>8)%1000))
+		for (now+d)%4 != 2 {
+			d++
+		}
 		time.Sleep(time.Duration(d))
 		return nil
 	}
@@ -755,8 +760,8 @@ func (s *Sim) stop2() {
 	s.settle()
 	if s.cfg.LogYield > 0 {
 		// a ticker goroutine may be parked at its log statement (yieldHook) for a few
-		// hundred nanoseconds yet: let them pass before judging
-		time.Sleep(time.Microsecond)
+		// microseconds yet: let them pass before judging
+		time.Sleep(8 * time.Microsecond)
 		s.settle()
 	}
 	select {
